@@ -220,6 +220,11 @@ def run(ctx):
 			for cycle in range(r.choice((1, 2, 3))):
 				rn.trace = []
 				rn.nticks = r.choice((3, 50, 150))
+				if r.random() < 0.5:
+					# the start frame is configured anew between two runs
+					rn.start_fn = r.choice((0, 5, 101, HYPER - 1, HYPER - 60, r.randrange(HYPER)))
+					rn.gen.clck_start = rn.start_fn
+					ctx.count("restarts_with_new_start_frame")
 				if not rn.go():
 					ctx.violation("restart", desc, what = "clock thread hung after stop()/start() number %d" % (cycle + 1))
 					break
